@@ -125,7 +125,7 @@ var atomPool = []string{"a", "b", "c", "d", "e", "o", "r", "s", "t", "x", "1", "
 
 // spicy atoms: quotes, backslashes, blanks, anchors - the characters the
 // rules-file round trip and the escaping passes care about
-var spicyPool = []string{`"`, `\\`, ` `, `\$`, `'`, `\x5c`, `@rx `, `" \\`, `"@rx `, `\"`, `%`, `/`, `:`, `=`}
+var spicyPool = []string{`"`, `\\`, ` `, `\$`, `'`, `\x5c`, `@rx `, `" \\`, `"@rx `, `"!@rx `, `\"`, `%`, `/`, `:`, `=`}
 
 func drawAtom(t *rapid.T, spicy bool, label string) string {
 	if spicy && chance(t, 25, label+"-spicy") {
